@@ -60,6 +60,12 @@ T = {
  "C13": (MC, "§6.13", "TLC checks I=>D for calculate_velocity/set_velocity_matrix on enumerated two-frame integer series x numberings x unequal time stamps in exact rational arithmetic; instances are replayed on real Frames; random 2..6-frame series with unequal stamps are validated by TLC in fixed point against the finite-difference, backward-at-last, zero-without-partner, RHS-row, static-zero, adimensional mean-speed, normalisation and system-velocity clauses.",
          "tracked partner = the vertex the implementation's mapping designates (C12 owns its correctness); adimensional / system-velocity clauses are exploration",
          "TLA+ spec (Tracking.tla velocity part) model-checked by TLC + TLC trace validation of the real time series"),
+ "C09": (MC, "§6.9", "MC_MeshEdits explores all sequences (depth 2 quick, 4 thorough) of the public edit operations with the code's register/unregister discipline on seed meshes; every behaviour is replayed on the real functions and judged by TLC (Consistent); every parser on all shipped dumps and images and on generated WKT, centre-set and contour inputs, followed by the full tree of generate_mesh/Frame sequences (depth 3/4), and all MC_Interfaces sub-tissues through generate_mesh and Frame, with Consistent judged by TLC after every step.",
+         "sequences beyond the stated depth and alphabets are not explored; the skeleton clean-up blocks are replayed by executing their source text cut out of the repo at run time; parallel mesh edges do not violate C09",
+         "TLA+ spec (Mesh.tla Consistent, MeshEdits.tla) + TLC enumeration of edit sequences replayed into the code + TLC trace validation (Trace_Edits)"),
+ "C11": (MC, "§6.11", "TLC enumerates every cell subset of the catalogue tissues x interior points x ne x replace_short_edges, runs the TLA+ transcription of generate_mesh twice and checks it against the declarative C11 verdict and Consistent; every instance is executed twice on the real generate_mesh (placements at positive, negative and mixed coordinates and far from the origin), judged by TLC against the same verdict and compared with the transcription; random Voronoi tissues (k <= 40), all shipped dumps and skeleton images are sampled.",
+         "bounded to catalogue sub-tissues; thorough covers k <= 16 for all hexflower subsets and k = 40 for subsets of <= 3 cells",
+         "TLA+ spec (Resample.tla D, MeshEdits.tla I) + TLC bounded-exhaustive enumeration replayed into generate_mesh + TLC trace validation (Trace_Resample)"),
 }
 PENDING = "check not integrated yet (being built; see DESIGN.md Appendix D)"
 
